@@ -211,6 +211,8 @@ pub struct BuiltGraph {
     pub names: Vec<String>,
     pub sinks: Vec<SinkHandle>,
     pub has_wait_after_progress: bool,
+    /// external-feed mode: the write end of the first stream, held by the application
+    pub extern_writer: Option<rustradio::stream::WriteStream<u8>>,
 }
 
 /// Input bits for the first source: structured (HDLC frames + noise) when a packet stage
@@ -242,6 +244,16 @@ pub fn build(r: &Recipe, size: Option<usize>) -> BuiltGraph {
 
 /// `endless`: the first source repeats its data forever (for cancellation plans).
 pub fn build_opts(r: &Recipe, size: Option<usize>, endless: bool) -> BuiltGraph {
+    build_src(r, size, endless as u8)
+}
+
+/// `mode` 0: the recipe's source; 1: an endless source; 2: no source block at all - the first
+/// stream is fed by the application, which wrote a little and keeps the write end (alive and
+/// idle) outside the graph.
+pub fn build_src(r: &Recipe, size: Option<usize>, mode: u8) -> BuiltGraph {
+    let endless = mode == 1;
+    let external = mode == 2;
+    let mut extern_writer = None;
     rustradio::verif::set_stream_size(size);
     let mut blocks: Vec<Box<dyn Block + Send>> = Vec::new();
     let mut names: Vec<String> = Vec::new();
@@ -253,6 +265,20 @@ pub fn build_opts(r: &Recipe, size: Option<usize>, endless: bool) -> BuiltGraph 
             names.push($n.to_string());
         }};
     }
+    let ext_out = if external {
+        let (w, rd) = rustradio::stream::new_stream::<u8>();
+        let d = source_bits(r, &r.src);
+        let m = d.len().min(w.free() / 2);
+        if m > 0 {
+            let mut wb = w.write_buf().expect("write_buf");
+            wb.slice()[..m].copy_from_slice(&d[..m]);
+            wb.produce(m, &[]);
+        }
+        extern_writer = Some(w);
+        Some(rd)
+    } else {
+        None
+    };
     let (s, out): (Box<dyn Block + Send>, ReadStream<u8>) = if !r.src_pieces.is_empty() && !endless {
         let mut d = source_bits(r, &r.src);
         let total: usize = r.src_pieces.iter().map(|x| *x as usize).sum();
@@ -284,8 +310,23 @@ pub fn build_opts(r: &Recipe, size: Option<usize>, endless: bool) -> BuiltGraph 
         let (b, o) = VectorSource::new(source_bits(r, &r.src));
         (Box::new(b), o)
     };
-    blocks.push(s);
-    names.push(if r.pkt && !r.src_pieces.is_empty() && !endless { "VecToStream".to_string() } else { "Source".to_string() });
+    let out = match ext_out {
+        Some(rd) => {
+            // the recipe's own source is not part of the graph
+            drop(s);
+            drop(out);
+            if r.pkt && !r.src_pieces.is_empty() && !endless {
+                blocks.pop();
+                names.pop();
+            }
+            rd
+        }
+        None => {
+            blocks.push(s);
+            names.push(if r.pkt && !r.src_pieces.is_empty() && !endless { "VecToStream".to_string() } else { "Source".to_string() });
+            out
+        }
+    };
     let mut cur = Cur::B(out);
     if let Some(g2) = &r.src2 {
         let (s2, out2) = VectorSource::new(gen_u8(g2, BDom::Bits));
@@ -513,6 +554,7 @@ pub fn build_opts(r: &Recipe, size: Option<usize>, endless: bool) -> BuiltGraph 
     }
     rustradio::verif::set_stream_size(None);
     BuiltGraph {
+        extern_writer,
         blocks,
         names,
         sinks,
